@@ -693,6 +693,9 @@ impl<'c> Hist<'c> {
 		for c in cols {
 			if self.cfg.cols[c as usize].multitree {
 				self.gen_tree_ops(c, &mut tx);
+				if matches!(self.profile, Profile::C08 | Profile::C10 | Profile::C14) && self.rng.chance(1, 3) {
+					self.gen_extra_tree_ops(c, &mut tx);
+				}
 			} else {
 				let n = match self.rng.below(10) {
 					0 => 0,
@@ -794,6 +797,67 @@ impl<'c> Hist<'c> {
 			tx.push(Op::DerefTree(c, self.rng.pick(&live).clone()));
 		} else {
 			tx.push(Op::RefTree(c, self.rng.pick(&live).clone()));
+		}
+	}
+
+	/// More tree operations of the same column in the same transaction (on other roots): all-new
+	/// insertions, dereferences and references of live trees none of whose nodes the
+	/// transaction's insertions name. Valid in any order.
+	fn gen_extra_tree_ops(&mut self, c: u8, tx: &mut Vec<Op>) {
+		fn existing_ids(t: &TreeSpec, out: &mut BTreeSet<u64>) {
+			for ch in &t.children {
+				match ch {
+					ChildSpec::Existing(id) => {
+						out.insert(*id);
+					},
+					ChildSpec::New(n) => existing_ids(n, out),
+				}
+			}
+		}
+		let tm = self.trees.get(&c).unwrap().clone();
+		let mut named = BTreeSet::new();
+		let mut roots_in_tx: BTreeSet<Vec<u8>> = BTreeSet::new();
+		for op in tx.iter() {
+			if op.col() != c {
+				continue
+			}
+			if let Op::InsertTree(_, k, spec) = op {
+				existing_ids(spec, &mut named);
+				roots_in_tx.insert(k.clone());
+			} else {
+				roots_in_tx.insert(op.key().clone());
+			}
+		}
+		let pending: BTreeSet<Vec<u8>> = self.mirror.iter().flatten().filter(|o| o.col() == c).map(|o| o.key().clone()).collect();
+		for _ in 0..self.rng.range(1, 2) {
+			let live: Vec<Vec<u8>> = tm
+				.roots
+				.keys()
+				.filter(|k| !roots_in_tx.contains(*k) && !pending.contains(*k) && tm.reachable(k).is_disjoint(&named))
+				.cloned()
+				.collect();
+			let free: Vec<Vec<u8>> = self.pools[c as usize].iter().filter(|k| !tm.roots.contains_key(*k) && !roots_in_tx.contains(*k) && !pending.contains(*k)).cloned().collect();
+			match self.rng.below(3) {
+				0 if !free.is_empty() => {
+					let k = self.rng.pick(&free).clone();
+					let mut budget = self.rng.range(1, 6) as i32;
+					let mut shared = 0;
+					let spec = self.random_tree(c, 2, &mut budget, &[], &mut shared);
+					roots_in_tx.insert(k.clone());
+					tx.push(Op::InsertTree(c, k, spec));
+				},
+				1 if !live.is_empty() && !tm.append_only => {
+					let k = self.rng.pick(&live).clone();
+					roots_in_tx.insert(k.clone());
+					tx.push(Op::DerefTree(c, k));
+				},
+				_ if !live.is_empty() && (tm.rc_roots || tm.append_only) => {
+					let k = self.rng.pick(&live).clone();
+					roots_in_tx.insert(k.clone());
+					tx.push(Op::RefTree(c, k));
+				},
+				_ => {},
+			}
 		}
 	}
 
@@ -1083,6 +1147,91 @@ impl<'c> Hist<'c> {
 			return Ok(())
 		}
 		if live.is_empty() {
+			return Ok(())
+		}
+		// scripted sub-scenario: a tree is inserted UNDER THE LOCK of a tree whose dereference(s)
+		// are still queued, re-using one of its nodes; guard and handle are then given up before
+		// the log worker gets to the (last) dereference. The insertion must keep the shared node.
+		if self.rng.chance(1, 8) && guards.is_empty() && self.mirror.is_empty() && self.handles.is_empty() {
+			let cand: Vec<Vec<u8>> = live.iter().filter(|k| tm.reachable(k).iter().any(|id| tm.addr_of(*id).is_some())).cloned().collect();
+			let free: Vec<Vec<u8>> = self.pools[c as usize].iter().filter(|k| !tm.roots.contains_key(*k)).cloned().collect();
+			if cand.is_empty() || free.is_empty() {
+				return Ok(())
+			}
+			let k = self.rng.pick(&cand).clone();
+			let shared_ids: Vec<u64> = tm.reachable(&k).into_iter().filter(|id| tm.addr_of(*id).is_some()).collect();
+			let shared = *self.rng.pick(&shared_ids);
+			let u = self.rng.pick(&free).clone();
+			let several = tm.rc_roots && self.rng.chance(2, 3);
+			self.log(format!("scenario: insert under the lock of tree {} ({} dereference(s) queued)", short_bytes(&k), if several { "several" } else { "one" }));
+			if several {
+				// raise the count above one first
+				let extra = self.rng.range(1, 2);
+				for _ in 0..extra {
+					self.commit_tx(db, rep, vec![Op::RefTree(c, k.clone())], None)?;
+				}
+				let mut bound = 0;
+				while db.verif_status().queued_commits > 0 && bound < 100 {
+					self.pipeline(db, rep, Step::ProcessCommits)?;
+					bound += 1;
+				}
+			}
+			// as many dereferences as the tree has references; all but the last one are processed.
+			// The last one is the removal that the lock postpones: the property lets a tree that is
+			// inserted under the lock re-use the nodes ("trees inserted meanwhile that reuse its
+			// nodes stay valid"), i.e. its effect comes AFTER that insertion - the model applies it
+			// there (and nothing is compared in between).
+			let count = self.trees.get(&c).unwrap().roots.get(&k).map_or(1, |r| r.count).max(1);
+			self.validate(db, rep, false)?;
+			// the client obtains its reader handle first, then every dereference is committed (all
+			// of them sit in the queue together), then the worker processes all but the last one
+			let handle = match db.get_tree(c, &k) {
+				Ok(Some(t)) => t,
+				_ => return fail("failure=tree_unreadable", format!("get_tree returned nothing for live root {}", short_bytes(&k))),
+			};
+			for _ in 0..count - 1 {
+				self.commit_tx(db, rep, vec![Op::DerefTree(c, k.clone())], None)?;
+			}
+			let last = vec![Op::DerefTree(c, k.clone())];
+			self.log(format!("commit [{}] (its effect is expected after the insertion made under the lock)", last[0].show()));
+			if let Err(e) = db.commit_changes(self.to_db_tx(&last)) {
+				return fail("failure=valid_commit_rejected", format!("a valid transaction was rejected: {}", e))
+			}
+			self.mirror.push_back(last.clone());
+			self.accepted += 1;
+			rep.count("commits_accepted", 1);
+			for _ in 0..count - 1 {
+				self.pipeline(db, rep, Step::ProcessCommits)?;
+			}
+			if count > 1 {
+				rep.count("insert_under_lock_several_derefs_queued", 1);
+			}
+			let held = Held::new(handle);
+			rep.count("guards_taken", 1);
+			self.tree_nonce += 1;
+			let spec = TreeSpec {
+				data: self.tree_nonce.to_le_bytes().to_vec(),
+				children: vec![ChildSpec::Existing(shared), ChildSpec::New(TreeSpec::leaf(self.tree_nonce.to_be_bytes().to_vec()))],
+			};
+			self.commit_tx(db, rep, vec![Op::InsertTree(c, u.clone(), spec)], None)?;
+			self.apply_tx(&last);
+			rep.count("trees_dereferenced", 1);
+			rep.count("inserts_under_lock_sharing_nodes", 1);
+			rep.count("guard_held_derefs", 1);
+			if self.rng.chance(1, 2) {
+				// the worker may look at the queue while the lock is still held
+				self.pipeline(db, rep, Step::ProcessCommits)?;
+				self.validate(db, rep, false)?;
+			}
+			self.log(format!("scenario: give up guard and handle of tree {}", short_bytes(&k)));
+			drop(held);
+			let mut bound = 0;
+			while db.verif_status().queued_commits > 0 && bound < 100 {
+				self.pipeline(db, rep, Step::ProcessCommits)?;
+				self.validate(db, rep, false)?;
+				bound += 1;
+			}
+			rep.count("insert_under_lock_scenarios", 1);
 			return Ok(())
 		}
 		// scripted sub-scenario: a reader handle that OUTLIVES a processed dereference of its root
